@@ -25,6 +25,8 @@ def run(ctx):
     ctx.do(P.rule_s2)
     ctx.do(P.rule_s3)
     ctx.do(P.rule_p1)
+    ctx.do(P.rule_p1g)
+    ctx.do(P.rule_fr2)
     ctx.do(CA.rule_c2, "ProjectiveObject", scope=ctx.scope(ENTRIES))
     ctx.do(CA.rule_cls1, "ProjectiveObject")
     ctx.do(P.rule_fr1, accessors=False)
